@@ -22,7 +22,9 @@ VALUES = {
     'null': [None],
     # strings: plain, a quote, number-like, empty, and the characters the property names (line break with blanks around it, double quote,
     # comment markers, back-slash, percent / colon / semicolon) - pairs of them meet in every position
-    'str': ['x', "it's", '2.5', '', 'a \n b', 'q"q', '--c /*', 'x\\', '%s :p ;', "''"],
+    'str': ['x', "it's", '2.5', '', 'a \n b', 'q"q', '--c /*', 'x\\', '%s :p ;', "''",
+            # what drivers and SQLAlchemy's own post-processing look for: named / positional / numbered parameter markers, format braces
+            '%(a)s', '%(', ')s', ':name', '?', '$1', '%%', '{x}'],
     # dates: the property names them; the literal must read back as str(value) (the form both printers use)
     'date': DATE_VALUES,
 }
